@@ -16,6 +16,11 @@ FULL = ["out", "nodes", "edges", "tail", "head", "membIn", "membOut", "indeg", "
         "headsize", "size", "nattr", "eattr", "nattrK", "eattrK", "net", "uid", "frozen"]
 
 
+# input families of harness/dhg.py (share of the histories that use them): explicit edge IDs outside int/str (uuid.UUID,
+# 10**309, 1.0 / 2.0 / 2.5 / 4.0, numpy integers, bytes), the same list / set object as tail and head, tuple node labels
+WEIGHTS = {"$exotic": 0.12, "$alias": 0.15, "$tuples": 0.08, "$large": 0.002}
+
+
 def _has_none(m):
     return isinstance(m, dict) and (None in m.get("tail", []) or None in m.get("head", []))
 
@@ -44,11 +49,23 @@ def pred(snap, op, prev, exc):
     return [(cls + q, detail) for cls, detail in clauses(snap)]
 
 
+def _norm(j):
+    """IDs as dict keys: a float that is an integer is the key of the int it equals (2.0 == 2, same hash) — an edge added as 2
+    and named 2.0 in a later call is one edge (harness/dhg.py shows exotic IDs as "$x:<kind>:<text>")"""
+    if isinstance(j, list):
+        return [_norm(x) for x in j]
+    if isinstance(j, str) and j.startswith("$x:float:") and float(j[9:]).is_integer():
+        return int(float(j[9:]))
+    return j
+
+
 def clauses(snap):
     """the WFd clauses of lean/XgiModel/C02/Lemmas.lean evaluated on the implementation's observable state.
     Clauses are evaluated in a fixed order (IDs, attribute records, dangling references, the four pairings);
     the first failing clause names the failure class."""
     fails = []
+    snap = {f: _norm(snap[f]) if f in ("nodes", "edges", "tail", "head", "membIn", "membOut", "nattr", "eattr", "nattrK", "eattrK") else snap[f]
+            for f in snap}
     nodes, edges = snap["nodes"], snap["edges"]
     nset, eset = {repr(n) for n in nodes}, {repr(e) for e in edges}
     tail = {repr(e): v for e, v in snap["tail"]}
@@ -221,7 +238,9 @@ def run(ctx):
                 "both head and tail, empty head or tail, malformed member shapes, copy, cleanup, relabel, freeze); the WFd "
                 "clauses are evaluated on the public observations after every call, also after calls that raised; "
                 "non-trivial = distinct projected state with an edge with non-empty tail and head after >=2 op kinds")
-    dis, hist = run_sm(ctx, M, "DHG", fields, pred, ctx.n(1000, 6000), derive=derive,
+    # regime family: every run has large networks (>= 70 node labels, > 130 parallel edges, labels and IDs above 2**53)
+    large = [M.gen_history(ctx.rng, 2, 6, {**WEIGHTS, "$large": 1.0}) for _ in range(2)]
+    dis, hist = run_sm(ctx, M, "DHG", fields, pred, ctx.n(1000, 6000), derive=derive, weights=WEIGHTS, extra_histories=large,
                        corr_name="correspondence DHG~DiHypergraph (" + ("full snapshot" if fields is FULL else "incidence projection") + ")")
     if not ctx.quick:
         depth = 3
@@ -238,8 +257,10 @@ def run(ctx):
             ctx.violation("model-tie", "unproven", {"broken": ctx.broken, "example": ctx.extra.get("disagreements", [])[:1]},
                           detail="; ".join(ctx.broken)[:500], kind="unproven", broken=ctx.broken)
     ctx.extra["compared_fields"] = fields
-    ctx.assumptions = ["IDs restricted to int/str/None (tuple edge IDs in first position of formats 2/4 are outside the model: "
-                       "the format detection of add_edges_from takes them for format 1); bool/float IDs outside the model",
+    ctx.assumptions = ["model IDs int/str/tuple/None (tuple node labels in 8 % of the histories; tuple edge IDs in first position of "
+                       "formats 2/4 are outside the model); explicit edge IDs uuid.UUID / 10**309 / floats / numpy integers / bytes are "
+                       "generated in 12 % of the histories and judged by the predicate only (numpy integers also by the model, as ints); "
+                       "bool IDs are not generated",
                        "the model describes the repaired code (proposed_fixes/C02-*.diff = /repo 307633d, d32d5fa, 8a6cdf6: "
                        "validate-before-write, strong removal purges memberships, every explicit ID advances the counter) and the "
                        "completed freeze list (/repo 85761ac)",
